@@ -354,6 +354,12 @@ def check_nested(case, res: Res) -> None:
 
 
 def ramp_docs(tag: str):
+    a, b = _ramp_docs(tag)
+    # a table that interrupts a paragraph, on the same lines in both documents (rules probed in validation mode first)
+    return [f"p{tag}a\n| h{tag}a | x |\n|:--|--:|\n| c{tag} | d |\n\n" + a, f"p{tag}b\n| h{tag}b | y | z |\n|---|:-:|---|\n| e{tag} | f | g |\n\n" + b]
+
+
+def _ramp_docs(tag: str):
     a = f"[a{tag}](/p/{tag}/a \"t{tag}\") ![i{tag}](/img/{tag}a) <http://h{tag}a.example/>\n\n[ra{tag}]: /ref/{tag}a 'T{tag}'\n\n[x][ra{tag}] w{tag} *e{tag}* `c{tag}`\n"
     b = f"[b{tag}](/q/{tag}/b) ![j{tag}](/img/{tag}b \"u{tag}\") <http://h{tag}b.example/>\n\n[rb{tag}]: /ref/{tag}b\n\n[y][rb{tag}] v{tag} **s{tag}**\n"
     return [a, b]
@@ -400,6 +406,29 @@ def check_ramp(case, res: Res) -> None:
             if res.v:
                 res.n = max(1, n)
                 return
+        if h < 2:
+            # two switches: call 1 pre-empted inside such code, call 2 runs up to a point inside such code, call 1 finishes
+            d2 = ramp_docs(f"{case['salt']}x{h}z")[1]
+            rec2 = C.build(cfg)
+            rec2.render(PAIRS[0][0])
+            sb = sched.Sched([lambda: _call(rec2, "render", d2)], [sched.BIG], 10**8, record_focus=True)
+            sb.run()
+            pa = s0.mutpoints[:: max(1, len(s0.mutpoints) // 40)] or pts[:: max(1, len(pts) // 40)]
+            pb = sb.mutpoints[:: max(1, len(sb.mutpoints) // 40)] or sb.mutfocus[:: max(1, len(sb.mutfocus) // 12)]
+            exp = [_call(C.build(cfg), "render", docs[0]), _call(C.build(cfg), "render", d2)]
+            for ka in pa:
+                for kb in pb:
+                    s2 = sched.Sched([lambda: _call(md, "render", docs[0]), lambda: _call(md, "render", d2)], [ka, kb, sched.BIG], 10**7)
+                    results, _ = s2.run()
+                    n += 1
+                    for i, (r, e) in enumerate(zip(results, exp)):
+                        if r is None or r[0] != "ok":
+                            res.fail("ramp:call-failed-under-schedule", f"two-switch plan [{ka}, {kb}]: thread {i}: {r!r}"[:400])
+                        elif r[1] != e:
+                            res.fail("ramp:result-differs-from-solo", f"two-switch plan [{ka}, {kb}] (both calls pre-empted inside {sorted(names)}): thread {i} {r[1][0]!r} != solo {e[0]!r}"[:700])
+                    if res.v:
+                        res.n = max(1, n)
+                        return
     res.n = max(1, n)
     res.nt = n > 0
 
